@@ -30,9 +30,10 @@ const preamble = `(set-logic ALL)
 (declare-sort Str 0)
 (declare-fun strlen (Str) (_ BitVec 64))
 (define-fun rstep ((r Ref)) Ref (ite ((_ is fld) r) (fld_b r) (ite ((_ is idx) r) (idx_b r) r)))
-(define-fun root ((r Ref)) Ref (rstep (rstep (rstep (rstep (rstep (rstep r)))))))
+(define-fun root ((r Ref)) Ref (rstep (rstep (rstep (rstep (rstep (rstep (rstep (rstep (rstep r))))))))))
+(define-fun ref_wf ((r Ref)) Bool (or ((_ is obj) (rstep (rstep (rstep r)))) ((_ is null) (rstep (rstep (rstep r))))))
 (define-fun rootn ((r Ref)) Int (ite ((_ is obj) (root r)) (obj_n (root r)) (- 1)))
-(define-fun slice_wf ((s Slice)) Bool (and (bvule (s_len s) (s_cap s)) (bvule (s_cap s) #x0000010000000000) (bvule (s_off s) #x0000010000000000) (=> (= (s_base s) null) (= (s_cap s) #x0000000000000000))))
+(define-fun slice_wf ((s Slice)) Bool (and (ref_wf (s_base s)) (bvule (s_len s) (s_cap s)) (bvule (s_cap s) #x0000010000000000) (bvule (s_off s) #x0000010000000000) (=> (= (s_base s) null) (= (s_cap s) #x0000000000000000))))
 (define-fun nil_slice () Slice (mkslice null #x0000000000000000 #x0000000000000000 #x0000000000000000))
 (define-fun nil_iface () Iface (mkiface 0 null))
 (define-fun in_slice ((a Ref) (s Slice)) Bool (and ((_ is idx) a) (= (idx_b a) (s_base s)) (bvule (s_off s) (idx_i a)) (bvult (idx_i a) (bvadd (s_off s) (s_len s)))))
@@ -425,7 +426,10 @@ func (st *sortTable) zeroValue(s *Sort) string {
 		}
 		return "(mk_" + s.name + " " + strings.Join(fs, " ") + ")"
 	case skArray:
-		return fmt.Sprintf("((as const %s) %s)", s.name, st.zeroValue(s.elem))
+		z := st.zeroValue(s.elem)
+		z = strings.ReplaceAll(z, "nil_slice", "(mkslice null #x0000000000000000 #x0000000000000000 #x0000000000000000)")
+		z = strings.ReplaceAll(z, "nil_iface", "(mkiface 0 null)")
+		return fmt.Sprintf("((as const %s) %s)", s.name, z)
 	}
 	panic("zeroValue: " + s.name)
 }
